@@ -16,9 +16,17 @@ import time
 import vlib
 
 GEN = os.path.join(vlib.OUT, "gen")
-BASE_TARGETS = ["Proofs/AssignGenTac.vo", "Model/AssignPy.vo"]
-SNAP_MODULES = r"(Model\.AssignGen|Proofs\.AssignGenEq)\b"
+BASE_TARGETS = ["Proofs/AssignGenTac.vo", "Proofs/AssignWrapGenTac.vo", "Model/AssignPy.vo"]
+SNAP_MODULES = r"(Model\.AssignGen|Proofs\.AssignGenEq|Model\.AssignWrapGen|Proofs\.AssignWrapGenEq)\b"
 SNAPSHOT = os.path.join(vlib.COQ, "Model", "AssignGen.v")
+SNAPSHOT_WRAP = os.path.join(vlib.COQ, "Model", "AssignWrapGen.v")
+# part "rr": _round_robin_assignment;  part "wrap": generate_assignments / decode_assignment / join_group_protocols
+# (the wrap files import the rr files: its proof uses the theorem about THIS run's gen_round_robin)
+PARTS = {
+    "rr": {"files": [("AssignGenRun", 120), ("AssignGenRunEq", 300)], "props": "C15genRun", "tracked_props": "Props/C15gen.v"},
+    "wrap": {"files": [("AssignGenRun", 120), ("AssignGenRunEq", 300), ("AssignWrapGenRun", 120), ("AssignWrapGenRunEq", 300)],
+             "props": "C15genwrapRun", "tracked_props": "Props/C15genwrap.v"},
+}
 
 
 def _retarget(text, run_imports):
@@ -37,11 +45,17 @@ def _retarget(text, run_imports):
     return "\n".join(lines) + "\n"
 
 
-def scratch_texts(translation):
+def scratch_texts(translation, wrap=None):
     rd = lambda rel: open(os.path.join(vlib.COQ, rel)).read()
-    return {"AssignGenRun.v": translation,
-            "AssignGenRunEq.v": _retarget(rd("Proofs/AssignGenEq.v"), ["AssignGenRun"]),
-            "C15genRun.v": _retarget(rd("Props/C15gen.v"), ["AssignGenRun", "AssignGenRunEq"])}
+    out = {"AssignGenRun.v": translation,
+           "AssignGenRunEq.v": _retarget(rd("Proofs/AssignGenEq.v"), ["AssignGenRun"])}
+    if wrap is None:
+        out["C15genRun.v"] = _retarget(rd("Props/C15gen.v"), ["AssignGenRun", "AssignGenRunEq"])
+    else:
+        out["AssignWrapGenRun.v"] = _retarget(wrap, ["AssignGenRun"])
+        out["AssignWrapGenRunEq.v"] = _retarget(rd("Proofs/AssignWrapGenEq.v"), ["AssignGenRun", "AssignGenRunEq", "AssignWrapGenRun"])
+        out["C15genwrapRun.v"] = _retarget(rd("Props/C15genwrap.v"), ["AssignGenRun", "AssignWrapGenRun", "AssignWrapGenRunEq"])
+    return out
 
 
 def _prune(keep):
@@ -71,23 +85,25 @@ def make_base(jobs=8):
         lock.close()
 
 
-def compile_scratch(translation):
+def compile_scratch(translation, wrap=None):
     """Compile (cached per text) the run's translation and its proof; ALWAYS re-compiles the statements file afresh and
     parses its Print Assumptions output.
     Returns {ok, log, dir, theorems:[{name, axioms, accepted}], obligations, discharged, cmd, stage}"""
-    texts = scratch_texts(translation)
-    ident = "c15_" + hashlib.sha1("\0".join(texts[k] for k in sorted(texts)).encode()).hexdigest()[:16]
+    part = PARTS["rr" if wrap is None else "wrap"]
+    pname = part["props"]
+    texts = scratch_texts(translation, wrap)
+    ident = ("c15_" if wrap is None else "c15w_") + hashlib.sha1("\0".join(texts[k] for k in sorted(texts)).encode()).hexdigest()[:16]
     d = os.path.join(GEN, ident)
     os.makedirs(d, exist_ok=True)
     _prune(ident)
     rel = os.path.relpath(d, vlib.COQ)
     res = {"ok": False, "log": "", "dir": d, "theorems": [], "obligations": 0, "discharged": 0, "stage": "", "cmd": ""}
-    cf = vlib.comment_free(texts["C15genRun.v"])
+    cf = vlib.comment_free(texts[pname + ".v"])
     thms = re.findall(r"^\s*Theorem\s+([\w']+)", cf, re.M)
     prints = re.findall(r"^\s*Print\s+Assumptions\s+([\w']+)", cf, re.M)
     res["obligations"] = len(thms)
     if set(thms) - set(prints):
-        raise vlib.CheckAbort("Props/C15gen.v: theorems without Print Assumptions")
+        raise vlib.CheckAbort(part["tracked_props"] + ": theorems without Print Assumptions")
     lock = open(os.path.join(d, ".lock"), "w")
     fcntl.flock(lock, fcntl.LOCK_EX)
     try:
@@ -98,7 +114,7 @@ def compile_scratch(translation):
         base_vo = [os.path.join(vlib.COQ, t) for t in BASE_TARGETS]
         newest = max(os.path.getmtime(f) for f in base_vo if os.path.exists(f))
         flags = "-Q . AV -Q %s AVRun -w -notation-overridden,-deprecated" % rel
-        for name, tmo in (("AssignGenRun", 120), ("AssignGenRunEq", 300)):
+        for name, tmo in part["files"]:
             vo = os.path.join(d, name + ".vo")
             if os.path.exists(vo) and os.path.getmtime(vo) >= newest and os.path.getmtime(vo) >= os.path.getmtime(os.path.join(d, name + ".v")):
                 continue
@@ -110,19 +126,19 @@ def compile_scratch(translation):
             rc, out = vlib.sh(cmd, tmo + 30, cwd=vlib.COQ)
             if rc or not os.path.exists(vo):
                 res["stage"] = name
-                res["log"] = ("%s does not compile (%s)\n" % (name, "the translation is not well-typed Gallina" if name == "AssignGenRun"
-                              else "DIFFERS: the generic proof gen_rr_tac does not establish generated = Assign.round_robin")) + out[-2500:]
+                res["log"] = ("%s does not compile (%s)\n" % (name, "the translation is not well-typed Gallina" if not name.endswith("Eq")
+                              else "DIFFERS: the generic proof does not establish generated = hand-written model")) + out[-2500:]
                 return res
-        cmd = "timeout 300 coqc %s %s/C15genRun.v" % (flags, rel)
+        cmd = "timeout 300 coqc %s %s/%s.v" % (flags, rel, pname)
         res["cmd"] = "cd /verif/coq && " + cmd
         rc, out = vlib.sh(cmd, 330, cwd=vlib.COQ)
         if rc:
-            res["stage"] = "C15genRun"
-            res["log"] = "C15genRun.v does not compile (DIFFERS: e.g. the non-vacuity example no longer computes)\n" + out[-2500:]
+            res["stage"] = pname
+            res["log"] = pname + ".v does not compile (DIFFERS: e.g. the non-vacuity example no longer computes)\n" + out[-2500:]
             return res
         blocks = vlib.parse_assumptions(out)
         if len(blocks) != len(prints):
-            res["stage"] = "C15genRun"
+            res["stage"] = pname
             res["log"] = "Print Assumptions blocks %d != expected %d\n%s" % (len(blocks), len(prints), out[-1500:])
             return res
         good = True
@@ -151,6 +167,7 @@ def translator_tie(ck):
     info = {"source": src, "translated": ok, "message": msg}
     ck.cov["translator"] = info
     if not ok:
+        ck.cov["translator_tie_wrapping"] = "unavailable: the tie of _round_robin_assignment, which generate_assignments calls, is unavailable"
         return "unavailable", "translation refused (%s)" % msg
     try:
         info["same_as_committed_snapshot_Model/AssignGen.v"] = (open(SNAPSHOT).read() == text)
@@ -164,12 +181,41 @@ def translator_tie(ck):
     if not r["ok"]:
         info["proof"] = r["log"][-1500:]
         first = r["log"].strip().splitlines()[0] if r["log"].strip() else r["stage"]
+        ck.cov["translator_tie_wrapping"] = "unavailable: the tie of _round_robin_assignment, which generate_assignments calls, is not intact"
         return ("differs" if r["stage"] != "AssignGenRun" else "unavailable"), first
     ck.cov["obligations"] += r["obligations"]
     ck.cov["discharged"] += r["discharged"]
     ck.cov["theorems"] += r["theorems"]
     ck.cov["checker_cmd"] += " ; " + r["cmd"]
     ck.cov["trusted_base"].append("translator harness/py2assign.py (Python statements read as the combinators of Model/AssignPy.v; sets as duplicate-free lists, dicts as association lists, itertools.cycle as (list, index), `while` with explicit fuel)")
+    # part 2: generate_assignments / decode_assignment / join_group_protocols (needs part 1: calls gen_round_robin)
+    state, reason = wrapping_tie(ck, text)
+    ck.cov["translator_tie_wrapping"] = "intact" if state == "intact" else "%s: %s" % (state, reason)
+    return "intact", "intact"
+
+
+def wrapping_tie(ck, rr_text):
+    import py2assign
+    ok, wtext, msg = py2assign.translate_repo_wrapping(vlib.REPO)
+    info = {"source": os.path.join(vlib.REPO, "afkak/_group.py") + ":_ConsumerProtocol.generate_assignments/decode_assignment/join_group_protocols",
+            "translated": ok, "message": msg}
+    ck.cov["translator_wrapping"] = info
+    if not ok:
+        return "unavailable", "translation refused (%s)" % msg
+    try:
+        info["same_as_committed_snapshot_Model/AssignWrapGen.v"] = (open(SNAPSHOT_WRAP).read() == wtext)
+    except OSError:
+        info["same_as_committed_snapshot_Model/AssignWrapGen.v"] = False
+    r = compile_scratch(rr_text, wrap=wtext)
+    info["scratch_dir"] = os.path.relpath(r["dir"], vlib.ROOT)
+    if not r["ok"]:
+        info["proof"] = r["log"][-1500:]
+        first = r["log"].strip().splitlines()[0] if r["log"].strip() else r["stage"]
+        return ("differs" if r["stage"] not in ("AssignWrapGenRun", "AssignGenRun") else "unavailable"), first
+    ck.cov["obligations"] += r["obligations"]
+    ck.cov["discharged"] += r["discharged"]
+    ck.cov["theorems"] += r["theorems"]
+    ck.cov["checker_cmd"] += " ; " + r["cmd"]
     return "intact", "intact"
 
 
@@ -190,6 +236,35 @@ def refresh_snapshot():
     open(tmp, "w").write(text)
     os.replace(tmp, SNAPSHOT)
     return True, "snapshot refreshed"
+
+
+def refresh_snapshot_wrap():
+    """the same for coq/Model/AssignWrapGen.v"""
+    import py2assign
+    ok, text, msg = py2assign.translate_repo("/repo")
+    okw, wtext, wmsg = py2assign.translate_repo_wrapping("/repo")
+    if not (ok and okw):
+        return False, "snapshot kept; /repo not translatable: " + (msg if not ok else wmsg)
+    old = open(SNAPSHOT_WRAP).read() if os.path.exists(SNAPSHOT_WRAP) else None
+    if old == wtext:
+        return True, "snapshot up to date"
+    okb, log = make_base()
+    r = compile_scratch(text, wrap=wtext) if okb else {"ok": False, "log": log}
+    if not r["ok"]:
+        return False, "snapshot kept; the proof about the new translation does not compile: " + r["log"][-300:]
+    tmp = SNAPSHOT_WRAP + ".tmp%d" % os.getpid()
+    open(tmp, "w").write(wtext)
+    os.replace(tmp, SNAPSHOT_WRAP)
+    return True, "snapshot refreshed"
+
+
+_refresh_rr = refresh_snapshot
+
+
+def refresh_snapshot():      # called by ./check --setup: both snapshots
+    a = _refresh_rr()
+    b = refresh_snapshot_wrap()
+    return (a[0] and b[0]), "AssignGen.v: %s; AssignWrapGen.v: %s" % (a[1], b[1])
 
 
 if __name__ == "__main__":
